@@ -1162,7 +1162,10 @@ class Interp:
         if isinstance(a, Obj) or isinstance(b, Obj):
             return self.obj_binop(op, a, b)
         if isinstance(a, Tensor) or isinstance(b, Tensor):
-            return self.tensor_binop(t, a, b)
+            try:
+                return self.tensor_binop(t, a, b)
+            except HOST_EXC as e:           # e.g. shapes that do not broadcast: an exception of the PROGRAM (torch raises RuntimeError), not of the engine
+                raise RaiseEx(e)
         if isinstance(a, Missing) or isinstance(b, Missing):
             raise Unsupported('arithmetic on a value outside the model')
         if not (is_sym(a) or is_sym(b)):
